@@ -10,6 +10,7 @@ import RbV.Lemmas.QGramExactModel
 import RbV.Lemmas.KChainFwd
 import RbV.Lemmas.LcskppFinal
 import RbV.Lemmas.SdpkppUnion
+import RbV.Lemmas.KmerHash
 /-!
 # C19 — k-mer / q-gram indexing and sparse chaining are exact
 
@@ -254,6 +255,29 @@ theorem kmerMatches_unique (x y : List Nat) (k : Nat) (l : List (Nat × Nat)) (h
   rintro ⟨i, j⟩; rw [hm, mem_kmerMatches]; rfl
 
 example : kmerMatches [1, 2, 1, 2] [2, 1, 2] 2 = [(0, 1), (1, 0), (2, 1)] := by decide
+
+/-! ### the hash-map based matcher (mirror model `RbV/Model/KmerHash.lean`) -/
+section kmer_hash
+open RbV.Model.KmerHash RbV.Lemmas.KmerHash
+
+/-- **mirror model of `hash_kmers`** (hash map as a finite map: `entry(key).or_default().push(i)` / `get`): the vector
+stored under a k-mer is the ascending list of exactly the positions where it occurs (nothing stored ⇒ no occurrence) -/
+theorem hash_kmers_model_exact (seq : List Nat) (k : Nat) (key : List Nat) :
+    (hmGet key (hashKmers seq k)).getD [] = (List.range (seq.length + 1 - k)).filter (fun i => window k seq i = key) :=
+  hashKmers_get seq k key
+
+/-- **mirror models of `find_kmer_matches`, `find_kmer_matches_seq1_hashed`, `find_kmer_matches_seq2_hashed`** (scan one
+sequence, look each window up in the hash of the other, push the pairs, sort): all three return exactly the reference
+`kmerMatches` — the unique strictly sorted list of all pairs with equal k-mers — for all sequences and every k -/
+theorem find_kmer_matches_model_refines (x y : List Nat) (k : Nat) :
+    findKmerMatches x y k = kmerMatches x y k ∧ seq1Hashed (hashKmers x k) y k = kmerMatches x y k ∧
+    seq2Hashed x (hashKmers y k) k = kmerMatches x y k :=
+  ⟨findKmerMatches_correct x y k, seq1Hashed_correct x y k, seq2Hashed_correct x y k⟩
+
+example : (hmGet [1, 2] (hashKmers [1, 2, 1, 2] 2)).getD [] = [0, 2] ∧ kmerMatches [1, 2, 1, 2] [2, 1, 2] 2 = [(0, 1), (1, 0), (2, 1)] := by
+  rw [hash_kmers_model_exact]; decide
+
+end kmer_hash
 
 /-! ## chains -/
 
